@@ -111,7 +111,17 @@ def cmd_sx(c):
         it.append("(set %s)" % " ".join(c["settings"]))
     if c.get("ext"):
         it.append("(ext %s)" % c["ext"])
-    for a in c.get("args", []):
+    args = list(c.get("args", []))
+    if c.get("decl_order"):
+        # positionals with explicit indices may be DECLARED in any order (Arg::index decides, not the declaration):
+        # the python side keeps them in index order, only the printed definition is permuted
+        pos_slots = [k for k, a in enumerate(args) if a.get("index") is not None and not a.get("short") and not a.get("long")]
+        perm = [pos_slots[j] for j in c["decl_order"] if j < len(pos_slots)]
+        if sorted(perm) == pos_slots:
+            permuted = [args[k] for k in perm]
+            for slot, a in zip(pos_slots, permuted):
+                args[slot] = a
+    for a in args:
         it.append(arg_sx(a))
     for g in c.get("groups", []):
         it.append(group_sx(g))
@@ -285,6 +295,10 @@ def gen_cmd(rng, prof, depth=0, path="p", used_env=None, inherited=None):
     required_upto = rng.randrange(0, npos + 1) if chance(rng, 0.5) else 0
     low_index = (not prof.conventional) and npos >= 2 and chance(rng, prof.low_index)
     explicit_index = chance(rng, 0.3)
+    if explicit_index and npos >= 2 and chance(rng, 0.5):
+        order = list(range(npos))
+        rng.shuffle(order)
+        c["decl_order"] = order
     if low_index:
         required_upto = npos
     for k in range(npos):
